@@ -135,6 +135,19 @@ pub fn catalogue() -> Vec<Deviation> {
         dev!("pos_allow_negative_numbers", |c| { p(c).allow_negative_numbers = true; }),
         dev!("pos_required", |c| { p(c).required = true; }),
         dev!("second_positional", |c| { c.args.push(ArgSpec::pos("q", 2)); }),
+        // the positional with the highest index is hidden, and required (directly or through the flag)
+        dev!("second_positional_hidden_required", |c| {
+            let mut q = ArgSpec::pos("q", 2);
+            q.hide = true;
+            q.required = true;
+            c.args.push(q);
+        }),
+        dev!("second_positional_hidden_required_by_flag", |c| {
+            let mut q = ArgSpec::pos("q", 2);
+            q.hide = true;
+            c.args.push(q);
+            a(c).requires.push("q".into());
+        }),
         dev!("pos_terminator", |c| {
             p(c).terminator = Some(";".into());
             if p(c).num_args.is_none() { p(c).num_args = Some((1, None)); }
